@@ -323,6 +323,8 @@ Definition c_wf (cfg: rcfg) (a: cspec) (o: rop) : bool :=
   | RGetPos _ inst => is_some (r_addr cfg o) || negb inst
   | RPretty => false
   | REq l => match a, l with Some (_, Some _), _ :: _ => true | _, _ => false end
+  | REncode => match a with Some (_, Some _) => true | _ => false end
+  | RGetComponent | RGetName0 => is_some a
   | _ => true
   end.
 
@@ -392,3 +394,82 @@ Definition l_observe (isset: bool) (a: lspec) : obs :=
 (* X.680 allows no DEFAULT on the alternatives of a CHOICE *)
 Definition no_def (cfg: rcfg) : bool :=
   forallb (fun f => match fst f with FDef _ => false | _ => true end) cfg.
+
+(* ------------------------------------------------------------------------------------------ *)
+(* ties to the harness *)
+
+(* the harness drives a plain Python list / dict / tuple in parallel with the real object; on the
+   well-formed prefix of every history that Python prototype must be this specification *)
+Definition lspec_eqb (a b: lspec) : bool :=
+  match a, b with None, None => true | Some x, Some y => list_eqb Z.eqb x y | _, _ => false end.
+Definition oz_eqb (a b: option Z) : bool :=
+  match a, b with None, None => true | Some x, Some y => Z.eqb x y | _, _ => false end.
+Definition rspec_eqb (a b: rspec) : bool := list_eqb oz_eqb a b.
+Definition cspec_eqb (a b: cspec) : bool :=
+  match a, b with
+  | None, None => true
+  | Some (k, v), Some (k', v') => Nat.eqb k k' && oz_eqb v v'
+  | _, _ => false
+  end.
+
+Fixpoint l_spec_check (ct isset: bool) (a: lspec) (ops: list sop) (tr: list (option (lspec * out))) : bool :=
+  match ops, tr with
+  | o :: ops', e :: tr' =>
+      if l_wf ct a o then
+        match e with
+        | Some (a', x) => let '(a1, y) := l_step isset a o in
+                          lspec_eqb a1 a' && out_eqb y x && l_spec_check ct isset a1 ops' tr'
+        | None => false
+        end
+      else true
+  | _, _ => true
+  end.
+Fixpoint r_spec_check (cfg: rcfg) (isset: bool) (a: rspec) (ops: list rop) (tr: list (option (rspec * out))) : bool :=
+  match ops, tr with
+  | o :: ops', e :: tr' =>
+      if r_wf cfg isset a o then
+        match e with
+        | Some (a', x) => let '(a1, y) := r_step cfg isset a o in
+                          rspec_eqb a1 a' && out_eqb y x && r_spec_check cfg isset a1 ops' tr'
+        | None => false
+        end
+      else true
+  | _, _ => true
+  end.
+Fixpoint c_spec_check (cfg: rcfg) (a: cspec) (ops: list rop) (tr: list (option (cspec * out))) : bool :=
+  match ops, tr with
+  | o :: ops', e :: tr' =>
+      if c_wf cfg a o then
+        match e with
+        | Some (a', x) => let '(a1, y) := c_step cfg a o in
+                          cspec_eqb a1 a' && out_eqb y x && c_spec_check cfg a1 ops' tr'
+        | None => false
+        end
+      else true
+  | _, _ => true
+  end.
+(* how many leading operations are well-formed (reported as coverage of the theorems' hypothesis) *)
+Fixpoint l_wf_prefix (ct isset: bool) (a: lspec) (ops: list sop) : nat :=
+  match ops with
+  | o :: r => if l_wf ct a o then S (l_wf_prefix ct isset (fst (l_step isset a o)) r) else 0
+  | [] => 0
+  end.
+
+(* operations of the public API of the kind of object (Sequence has no *ByType methods) *)
+Definition r_in_api (isset: bool) (o: rop) : bool :=
+  match o with RSetType _ _ | RGetType _ _ => isset | RGetComponent | RGetName0 => false | _ => true end.
+
+(* example data used by the non-vacuity examples and the refutation witnesses *)
+Definition cfg3 : rcfg :=
+  [(FReq, mkTag Univ false 2%N); (FReq, mkTag Ctx false 0%N); (FReq, mkTag Ctx false 1%N)].
+Definition cfg4 : rcfg :=
+  [(FReq, mkTag Univ false 2%N); (FOpt, mkTag Ctx false 0%N); (FDef 7, mkTag Ctx false 1%N); (FReq, mkTag Ctx false 2%N)].
+Definition ex_h1 : list sop :=
+  [SAppend (PInt 3); SExtend [PInt 1; PAsn 2]; SSetItem (-1) (PInt 7); SSort false; SReverse;
+   SGetItem 0; SSetSlice 0 2 [PInt 5; PInt 6]; SClone true; SIn 6; SEncode].
+Definition ex_h2 : list rop :=
+  [RSetItem (KName 0) (PInt 1); RGetItem (KName 1); RSetPos (-1) (Some (PAsn 2)); RIsValue; RValues;
+   RSetName 2 (Some (PInt 9)); RClone true; RSetName 2 None; REncode].
+Definition ex_h3 : list rop :=
+  [RGetItem (KName 0); RGetItem (KName 2); RSetItem (KName 1) (PInt 5); RGetItem (KPos (-2)); RGetPos 2 false;
+   RLen; RSetPos 2 (Some (PAsn 6)); RClone true; REncode].
